@@ -13,6 +13,7 @@ import (
 	"sort"
 	"strings"
 
+	"golang.org/x/tools/go/ast/astutil"
 	"golang.org/x/tools/go/packages"
 )
 
@@ -74,6 +75,22 @@ func transformFile(abs string, kind string) ([]byte, int, bool) {
 			}
 			return true
 		})
+	case "incdec":
+		// x++  ->  x += 1
+		astutil.Apply(file, func(cur *astutil.Cursor) bool {
+			if st, ok := cur.Node().(*ast.IncDecStmt); ok {
+				tok := token.ADD_ASSIGN
+				if st.Tok == token.DEC {
+					tok = token.SUB_ASSIGN
+				}
+				if _, inFor := cur.Parent().(*ast.ForStmt); inFor {
+					return true // keep loop headers
+				}
+				cur.Replace(&ast.AssignStmt{Lhs: []ast.Expr{st.X}, TokPos: st.TokPos, Tok: tok, Rhs: []ast.Expr{&ast.BasicLit{Kind: token.INT, Value: "1", ValuePos: st.TokPos}}})
+				count++
+			}
+			return true
+		}, nil)
 	case "ifinvert":
 		// if c {A} else {B}  ->  if !(c) {B} else {A}
 		ast.Inspect(file, func(x ast.Node) bool {
@@ -104,7 +121,7 @@ func transformFile(abs string, kind string) ([]byte, int, bool) {
 // neutral applies behaviour-preserving edits to every file a check looked at and reports checks that alarm.
 func neutral(ids []string) int {
 	kind := "rename"
-	if len(ids) > 0 && (ids[0] == "rename" || ids[0] == "swapeq" || ids[0] == "ifinvert") {
+	if len(ids) > 0 && (ids[0] == "rename" || ids[0] == "swapeq" || ids[0] == "ifinvert" || ids[0] == "incdec") {
 		kind, ids = ids[0], ids[1:]
 	}
 	if len(ids) == 0 {
